@@ -8,6 +8,7 @@ import (
 	"os/exec"
 	"sort"
 	"strings"
+	"verifmc/univ"
 
 	yaml "gopkg.in/yaml.v2"
 
@@ -106,13 +107,22 @@ func c02Orders(n int) [][]int {
 //	0: k1..kn
 //	1: strings that look like numbers mixed with strings that do not, empty, blank, signs, non-ASCII
 //	2: keys of mixed Go types in a map[any]any (ints of several widths, floats, bools, strings)
-const c02KeyStyles = 3
+//	3: keys that are DISTINCT Go values but EQUAL Liquid values (1, int64(1), 1.0, uint8(1); "k" and a named string "k")
+const c02KeyStyles = 4
 
 var c02TrickyKeys = []string{"10", "9", "2xx", "404", "1000", "a", "B", "", "1e3", "-1", "01", "k", " ", "é", "A", "b", "00", "2",
 	"x2", "0x1f", "1_0", "٣", "10 ", "+5", "5.0", "NaN", "b2"}
 
 var c02MixedKeys = []any{1, "1", 2.5, true, "a", int8(3), uint(4), "10", 10, false, int64(-1), "B", 0, "", float32(0.5), uint8(7), "b",
 	100, "2", 2, "true", int16(9), 1000, "k", uint64(12), -7, "é"}
+
+var c02EqualKeys = func() []any {
+	var ks []any
+	for v := 0; v < 5; v++ {
+		ks = append(ks, v, int64(v), float64(v), uint8(v), int32(v))
+	}
+	return append(ks, "k", univ.NamedString("k"))
+}()
 
 func c02Bindings(n int, order []int) map[string]any { return c02BindingsK(n, order, 0) }
 
@@ -126,6 +136,9 @@ func c02BindingsK(n int, order []int, style int) map[string]any {
 	akey := func(i int) any {
 		if style == 2 {
 			return c02MixedKeys[i]
+		}
+		if style == 3 {
+			return c02EqualKeys[i]
 		}
 		return skey(i)
 	}
@@ -144,7 +157,7 @@ func c02BindingsK(n int, order []int, style int) map[string]any {
 		inner[skey(i)] = i + 1
 	}
 	m = ms0
-	if style == 2 {
+	if style >= 2 {
 		m = ma0
 	}
 	for i := 0; i < n; i++ {
